@@ -20,14 +20,14 @@ def main():
               (['attr', 'x', 'id', 'y'], ['id', 'y', 'x', 'attr'])]
     if not quick:
         perms = list(itertools.permutations(COLS))
-        orders = [None] + [(list(perms[i]), list(perms[-1 - i])) for i in range(1, 24, 3)]
+        orders = [None] + [(list(perms[i]), list(perms[-1 - i])) for i in range(1, 24, 6)]
     lists = [None, [], ['id'], ['attr'], ['x', 'y'], ['y', 'x', 'y'], ['id', 'x', 'attr', 'x'],
              ['attr', 'id', 'attr']]
     if quick:
         outs = [(None, None), ([], None), (['x', 'y'], ['attr']), (['y', 'x', 'y'], ['id', 'x', 'attr', 'x']),
                 (['attr', 'id', 'attr'], ['y']), (None, ['id']), (['id'], [])]
     else:
-        outs = [(a, b) for a in lists for b in lists]
+        outs = [(a, b) for a in lists for b in lists][::3]
     ck.bounds = dict(rows='2x2', columns='4 per table in %d orderings' % len(orders),
                      out_attr_choices=len(outs), branches='normal, empty-set, missing-value rows')
     ck.outside += ['extra columns of non-object dtype (values are opaque markers in the model)']
